@@ -10,5 +10,4 @@ open Biogo.Properties.C03_seq
 #print axioms fastq_rejects_length_mismatch
 #print axioms fastq_rejects_length_mismatch_at_eof
 #print axioms fastq_rejects_quality_header_mismatch
-#print axioms panic_sites_modelled
 #print axioms fasta_total_any_prefixes
